@@ -83,8 +83,9 @@ def _ver_to_cal_info(vinfo: version.V2VersionInfo) -> version.V2CalendarInfo:
         vinfo.month or defaults.month,
         vinfo.dom or defaults.dom,
         vinfo.doy or defaults.doy,
-        vinfo.week_w or defaults.week_w,
-        vinfo.week_u or defaults.week_u,
+        # week numbers may be 0 (days before the first Monday/Sunday)
+        defaults.week_w if vinfo.week_w is None else vinfo.week_w,
+        defaults.week_u if vinfo.week_u is None else vinfo.week_u,
         vinfo.week_v or defaults.week_v,
     )
 
